@@ -369,8 +369,8 @@ def run_tu(a):
 FLOAT_H = r'''
 #include <float.h>
 #include <stdio.h>
-#define VI(M) printf(#M " %lld\n", (long long)(M))
-#define VF(M) printf(#M " %La size=%d\n", (long double)(M), (int)sizeof(M))
+#define VI(M) printf(#M " | %lld\n", (long long)(M))
+#define VF(M) printf(#M " | %La size=%d\n", (long double)(M), (int)sizeof(M))
 int main(void) {
   VI(FLT_RADIX); VI(FLT_MANT_DIG); VI(DBL_MANT_DIG); VI(LDBL_MANT_DIG); VI(FLT_DIG); VI(DBL_DIG); VI(LDBL_DIG); VI(FLT_MIN_EXP); VI(DBL_MIN_EXP); VI(LDBL_MIN_EXP); VI(FLT_MAX_EXP); VI(DBL_MAX_EXP); VI(LDBL_MAX_EXP);
   VI(FLT_MIN_10_EXP); VI(DBL_MIN_10_EXP); VI(LDBL_MIN_10_EXP); VI(FLT_MAX_10_EXP); VI(DBL_MAX_10_EXP); VI(LDBL_MAX_10_EXP); VI(DECIMAL_DIG); VI(FLT_EVAL_METHOD); VI(FLT_ROUNDS);
